@@ -1702,3 +1702,157 @@ C18_SAMPLE_SEGREGATING = dict(
     assign_effects=[("plate_names[__i] = f'generated_plate_{__k}'", "plate_names'", "!rp_lift (label_set {state} {i} {k})")],
 )
 ALL += [C18_SAMPLE_SEGREGATING]
+# ---- C04: what the sparse-combo models are trained on (vocabulary: Model/Train.v, its last part) ----
+# `data` (a ScreenBase) is the list of its rows at id level (Train.trow); each 1-d array attribute is that column of the
+# rows.  Observations are Train.oval (exact rational | NaN | +-inf).  The wrapped legacy sampler object is Train.legacy
+# (its four Python lists and three defaultdict(list) index dictionaries).  Trusted per entry: one attribute read / one
+# numpy / scipy call each; float32 rounding and logit on (0,1) are the parameters r32 / orc of the model.
+_C04 = dict(out="SrcTrain.v", imports="Lib.Num Generated.Consts Model.Train", typed_targets=True)
+_C04_ROWS = [
+    ("data.observations", "map t_obs data'", "list oval"),
+    ("data.treatment_ids", "map t_treats data'", "list (list Z)"),
+    ("data.sample_ids", "map t_sample data'", "list Z"),
+    ("data.observation_mask", "map t_mask data'", "list bool"),
+]
+_C04_NUMPY = [
+    ("__b.all()", "all_true {b}", "bool", {"b": "list bool"}),
+    ("__b.any()", "any_true {b}", "bool", {"b": "list bool"}),
+    ("__a >= 0.0", "map o_nonneg {a}", "list bool", {"a": "list oval"}),                   # elementwise; NaN >= 0 is False
+    ("__a.astype(np.float32)", "map (cast32 r32) {a}", "list oval", {"a": "list oval"}),
+    ("logit(__a)", "map (ologit orc) {a}", "list oval", {"a": "list oval"}),              # scipy.special.logit, elementwise
+    ("np.isnan(__a)", "map o_isnan {a}", "list bool", {"a": "list oval"}),
+]
+
+# BayesianModel.add_observations, for ANY model class: `inner` is the abstract method self._add_observations
+C04_ADD_OBSERVATIONS = dict(
+    _C04, file="src/batchie/core.py", cls="BayesianModel", func="add_observations", name="src_add_observations",
+    pyparams=["self", "data"],
+    params=[("S", "Type"), ("inner", "S -> list trow -> result S"), ("self", "S"), ("data", "list trow")],
+    returns="S", vars={},
+    prims=_C04_ROWS + _C04_NUMPY,
+    effects=[("self._add_observations(__d)", "self'", "!inner {state} {d}")],
+    raises=[("Cannot add data with masked observations", 1)],
+    implicit_return="{self}",       # the method mutates self: it denotes the new self
+)
+
+# LegacySparseDrugComboImpl / LegacySparseDrugComboInteractionImpl: n_obs and _update (the same text in both classes)
+_LEGACY_FIELDS = {
+    "y": ("legacy", "list oval", "lg_y {obj}", "set_lg_y {obj} {val}"),
+    "cline": ("legacy", "list Z", "lg_cline {obj}", "set_lg_cline {obj} {val}"),
+    "dd1": ("legacy", "list Z", "lg_dd1 {obj}", "set_lg_dd1 {obj} {val}"),
+    "dd2": ("legacy", "list Z", "lg_dd2 {obj}", "set_lg_dd2 {obj} {val}"),
+    "cline_idxs": ("legacy", "dict list Z", "lg_cline_idxs {obj}", "set_lg_cline_idxs {obj} {val}"),
+    "dd1_idxs": ("legacy", "dict list Z", "lg_dd1_idxs {obj}", "set_lg_dd1_idxs {obj} {val}"),
+    "dd2_idxs": ("legacy", "dict list Z", "lg_dd2_idxs {obj}", "set_lg_dd2_idxs {obj} {val}"),
+}
+
+
+def _legacy(file, cls, tag):
+    n_obs = dict(_C04, file=file, cls=cls, func="n_obs", name="src_%s_n_obs" % tag, pyparams=["self"],
+                 params=[("self", "legacy")], returns="Z", vars={}, fields=_LEGACY_FIELDS,
+                 prims=[("len(__l)", "Z.of_nat (length {l})", "Z")])
+    update = dict(_C04, file=file, cls=cls, func="_update", name="src_%s_update" % tag,
+                  pyparams=["self", "y", "cl", "dd1", "dd2"],
+                  params=[("self", "legacy"), ("y", "oval"), ("cl", "Z"), ("dd1", "Z"), ("dd2", "Z")],
+                  returns="legacy", vars={"n": "Z"}, fields=_LEGACY_FIELDS,
+                  defaultdict_list=["cline_idxs", "dd1_idxs", "dd2_idxs"],      # created as defaultdict(list) in __init__
+                  prims=[("self.n_obs()", "!src_%s_n_obs self'" % tag, "Z")],   # runs the translated n_obs
+                  implicit_return="{self}")
+    return [n_obs, update]
+
+
+C04_LEGACY = _legacy("src/batchie/models/sparse_combo.py", "LegacySparseDrugComboImpl", "legacy")
+C04_LEGACY_INT = _legacy("src/batchie/models/sparse_combo_interaction.py", "LegacySparseDrugComboInteractionImpl", "legacy_int")
+
+# SparseDrugCombo._add_observations; self.wrapped_model._update(...) runs the translated _update
+C04_SDC_ADD = dict(
+    _C04, file="src/batchie/models/sparse_combo.py", cls="SparseDrugCombo", func="_add_observations",
+    name="src_sdc_add_observations", pyparams=["self", "data"],
+    attr_vars={"self.wrapped_model": "wrapped_model"},
+    params=[("orc", "oracle"), ("r32", "cast_fn"), ("wrapped_model", "legacy"), ("data", "list trow")],
+    returns="legacy",
+    vars={"observations_transformed": "list oval", "y": "oval", "dd": "list Z", "cl": "Z", "mask": "bool"},
+    float_literals=("q_of_pair ({n}, {d})", "Qc"),      # the clip bounds, read from the call
+    prims=_C04_ROWS + _C04_NUMPY + [
+        ("np.clip(__a, a_min=__lo, a_max=__hi)", "map (oclip_at {lo} {hi}) {a}", "list oval", {"a": "list oval", "lo": "Qc", "hi": "Qc"}),
+        ("zip(__a, __b, __c, __d)", "zip4 {a} {b} {c} {d}", "list (oval * list Z * Z * bool)",
+         {"a": "list oval", "b": "list (list Z)", "c": "list Z", "d": "list bool"}),
+        ("__l[__i]", "!id_at {l} {i}", "Z", {"l": "list Z", "i": "Z"}),          # dd[0], dd[1]: IndexError = tag 4
+    ],
+    effects=[("wrapped_model._update(y=__y, cl=__c, dd1=__a, dd2=__b)", "wrapped_model'", "!src_legacy_update {state} {y} {c} {a} {b}")],
+    raises=[("Observations should be non-negative", 2), ("NaNs in observations", 3)],
+    implicit_return="{wrapped_model}",
+)
+
+ALL += [C04_ADD_OBSERVATIONS] + C04_LEGACY + C04_LEGACY_INT + [C04_SDC_ADD]
+
+# create_single_treatment_effect_map (data.py), generic in the observation type O (C04: Train.oval with one = 1.0 and
+# mean = np.mean): treatment_ids is (arity = shape[1], list of rows); the result dict keyed by (sample id, treatment id)
+# is an insertion-ordered association list
+_LK = "list ((Z * Z) * O)"
+_MASK_SELECT = [("__a[__m]", "select {m} {a}", t, {"a": t, "m": "list bool"}) for t in ("list O", "list Z", "list bool")]
+C04_SINGLE_EFFECT_MAP = dict(
+    _C04, imports="Lib.Num Generated.Consts Model.Encode Model.Train",
+    file="src/batchie/data.py", func="create_single_treatment_effect_map", name="src_create_single_treatment_effect_map",
+    pyparams=["sample_ids", "treatment_ids", "observation"],
+    params=[("O", "Type"), ("one", "O"), ("mean", "list O -> O"), ("arity", "nat"),
+            ("sample_ids", "list Z"), ("treatment_ids", "list (list Z)"), ("observation", "list O")],
+    returns=_LK,
+    vars={"single_treatment_mask": "list bool", "single_treatment_observations": "list O",
+          "single_treatment_treatments": "list Z", "single_treatment_sample_ids": "list Z", "result": _LK,
+          "current_sample_id": "Z", "current_treatment_id": "Z", "mask": "list bool", "single_effect": "O"},
+    overload=True,
+    prims=[
+        ("treatment_ids.shape[1]", "Z.of_nat arity", "Z"),
+        ("CONTROL_SENTINEL_VALUE", "CONTROL_SENTINEL_VALUE", "Z"),                   # Generated/Consts.v, re-read from the source
+        ("np.sum(__a == CONTROL_SENTINEL_VALUE, axis=1)", "ctrl_counts {a}", "list Z", {"a": "list (list Z)"}),
+        ("__a == __v", "eq_vec {a} {v}", "list bool", {"a": "list Z", "v": "Z"}),      # elementwise
+        ("__a == __v", "{a} =? {v}", "bool", {"a": "Z", "v": "Z"}),
+        ("__a[__m, :]", "select {m} {a}", "list (list Z)", {"a": "list (list Z)", "m": "list bool"}),
+        ("np.sort(__x, axis=1)[:, -1]", "row_maxima {x}", "list Z", {"x": "list (list Z)"}),
+    ] + _MASK_SELECT + [
+        ("np.unique(__a)", "sort_uniq Z.compare {a}", "list Z", {"a": "list Z"}),      # sorted distinct values
+        ("__a.flatten()", "concat {a}", "list Z", {"a": "list (list Z)"}),
+        ("__a & __b", "and_vec {a} {b}", "list bool", {"a": "list bool", "b": "list bool"}),
+        ("np.any(__m)", "any_true {m}", "bool", {"m": "list bool"}),
+        ("np.mean(__a)", "mean {a}", "O", {"a": "list O"}),
+    ],
+    assign_effects=[("result[(__s, __t)] = 1.0", "result'", "dict2_set {state} ({s}, {t}) one"),
+                    ("result[(__s, __t)] = __v", "result'", "dict2_set {state} ({s}, {t}) {v}")],
+    raises=[("Experiment must have more than one treatment", 4)],
+)
+
+# SparseDrugComboInteraction._add_observations: self = (single_effect_lookup, wrapped_model); arity = data.treatment_arity
+C04_INT_ADD = dict(
+    _C04, imports="Lib.Num Generated.Consts Model.Encode Model.Train",
+    file="src/batchie/models/sparse_combo_interaction.py", cls="SparseDrugComboInteraction", func="_add_observations",
+    name="src_int_add_observations", pyparams=["self", "data"],
+    attr_vars={"self.wrapped_model": "wrapped_model", "self.single_effect_lookup": "single_effect_lookup"},
+    params=[("orc", "oracle"), ("r32", "cast_fn"), ("arity", "nat"), ("single_effect_lookup", "list (lkey * oval)"),
+            ("wrapped_model", "legacy"), ("data", "list trow")],
+    returns="(list (lkey * oval) * legacy)",
+    vars={"combo_mask": "list bool", "obs": "list oval", "cls": "list Z", "dd1s": "list Z", "dd2s": "list Z", "masks": "list bool",
+          "observations_transformed": "list oval", "y": "oval", "dd1": "Z", "dd2": "Z", "cl": "Z", "mask": "bool"},
+    overload=True,
+    prims=_C04_ROWS + _C04_NUMPY + [
+        ("data.treatment_arity", "Z.of_nat arity", "Z"),                               # treatment_ids.shape[1]
+        # runs the translated create_single_treatment_effect_map at O = oval
+        ("create_single_treatment_effect_map(sample_ids=__s, treatment_ids=__t, observation=__o)",
+         "!src_create_single_treatment_effect_map oval oone omean arity {s} {t} {o}", "list (lkey * oval)",
+         {"s": "list Z", "t": "list (list Z)", "o": "list oval"}),
+        ("np.sum(__a == CONTROL_SENTINEL_VALUE, axis=1)", "ctrl_counts {a}", "list Z", {"a": "list (list Z)"}),
+        ("__c == 0", "eq_vec {c} 0", "list bool", {"c": "list Z"}),
+        ("__a[__m, 0]", "column 0 (select {m} {a})", "list Z", {"a": "list (list Z)", "m": "list bool"}),
+        ("__a[__m, 1]", "column 1 (select {m} {a})", "list Z", {"a": "list (list Z)", "m": "list bool"}),
+    ] + [("__a[__m]", "select {m} {a}", t, {"a": t, "m": "list bool"}) for t in ("list oval", "list Z", "list bool")] + [
+        ("zip(__a, __b, __c, __d, __e)", "zip5 {a} {b} {c} {d} {e}", "list (oval * Z * Z * Z * bool)",
+         {"a": "list oval", "b": "list Z", "c": "list Z", "d": "list Z", "e": "list bool"}),
+    ],
+    effects=[("single_effect_lookup.update(__m)", "single_effect_lookup'", "lk_update {state} {m}"),      # dict.update
+             ("wrapped_model._update(y=__y, cl=__c, dd1=__a, dd2=__b)", "wrapped_model'", "!src_legacy_int_update {state} {y} {c} {a} {b}")],
+    raises=[("only works with two-treatments combination datasets", 4), ("Observations should be non-negative", 2),
+            ("NaNs in observations", 3)],
+    implicit_return="({single_effect_lookup}, {wrapped_model})",
+)
+
+ALL += [C04_SINGLE_EFFECT_MAP, C04_INT_ADD]
